@@ -1098,6 +1098,10 @@ func TestC15(t *testing.T) {
 				runGv(op)
 				continue
 			}
+			if strings.HasPrefix(op, "lc ") {
+				c15lApply(r, op)
+				continue
+			}
 			op = w.resolveAddrs(r, op)
 			line, out := w.apply(r, op)
 			if line == "" {
@@ -1129,6 +1133,7 @@ func TestC15(t *testing.T) {
 	}
 	if r.Shard == 0 {
 		c15PanicSites(t, r)
+		c15lRun(t, r) // app life-cycle probe (harness/c15_life_test.go)
 	}
 	for _, h := range corpusOps("C15") {
 		run(append([]string{"reset"}, h...))
